@@ -1,5 +1,6 @@
 import Proofs.C14
 import Proofs.C14Clean
+import Proofs.C14Chain
 import Gen.C14
 
 /-!
@@ -7,9 +8,25 @@ import Gen.C14
 
 Model: `Model/KV.lean`, `Model/Store.lean` (every method of `pkg/store.DefaultStore` as reads of the
 durable `KV` and the atomic write-sets it issues, with the real datastore key strings).  Abstract
-store: `Store.Abs` (height, blocks by height, hash → height index, state, metadata).  All theorems
-quantify over every operation history (`List Store.Op`), every height `< 2^64`, every hash, every
-value and every metadata key that `path.Clean` leaves alone (which includes every key the node uses).
+store: `Store.Abs` (height, blocks by height, hash → height of the block last saved under that hash
+while it still is the block of that height, state, metadata).  All theorems quantify over every
+operation history (`List Store.Op`), every height `< 2^64`, every hash, every value and every metadata
+key that `path.Clean` leaves alone (which includes every key the node uses); a block is saved under the
+hash of the header that is stored (`Op.OK`: the wire round trip of C12 for `SaveBlockData`).
+
+History: until /repo 34bccfd `SaveBlockData` left the hash index entry of a replaced header behind, so the
+clause "reads return what the latest write for that hash stored" was FALSE (finding
+`C14/read/by-hash-returns-other-block-after-height-overwrite`, repaired; witness
+`old_store_reads_other_block_by_old_hash`).  `Abs.step` now says what the property says and
+`byHash_full` holds for every history.
+
+The last section connects this store to `Chain.Store`, the abstract store the models of C01–C08 use
+(`Proofs/C14Chain.lean`).
+
+What is NOT a theorem here: atomicity of a datastore batch and durability across reopen.  The model
+issues one write-set per save and `reopen` is the identity BY DEFINITION; the code side is the fact
+`gen_save_one_batch` (measured on the harness's logging datastore) and an assumption about badger
+(props/C14.json).
 -/
 namespace Spec.C14
 open Store
@@ -25,16 +42,57 @@ theorem gen_indexKeys : Gen.C14.indexKeys.all (fun p => decide (indexKey p.1 = p
 /-- includes the look-alike keys and the keys `path.Clean` rewrites -/
 theorem gen_metaKeys : Gen.C14.metaKeys.all (fun p => decide (metaKey p.1 = p.2)) = true := by decide +kernel
 theorem gen_heightValues : Gen.C14.heightValues.all (fun p => decide (encodeHeight p.1 = p.2)) = true := by decide
-/-- the metadata keys the node uses (exported constants of `pkg/store`/`block`, heights 3 and 4) are the
-model's, and `path.Clean` leaves them alone -/
+/-! ### the metadata keys the node uses, re-read from the SOURCE on every run
+
+`harness/streams/c14/metakeys.go` parses /repo (go/parser; a build overlay is honoured) and resolves the key
+expression of every `SetMetadata`/`GetMetadata` call in a package that imports `pkg/store`: constants,
+`fmt.Sprintf` formats, struct fields, parameters.  A new key, a changed constant or a changed `rhb` format
+changes these lists and the theorems below stop compiling.  (The scan is syntactic: the RPC *client* call in
+`pkg/rpc/example` is included — a superset is on the safe side.) -/
+
+/-- the constant keys are the model's (and the example's) -/
+theorem gen_nodeMetaConst : Gen.C14.nodeMetaConst =
+    [daIncludedHeightKey, "example_key", lastBatchDataKey, lastSubmittedDataHeightKey,
+     lastSubmittedHeaderHeightKey] := by decide
+
+/-- a per-height key: prefix, decimal height, suffix (`fmt.Sprintf("%s/%d/h", …)`) -/
+def fmtKey (p : String × String) (h : Nat) : String := p.1 ++ Nat.repr h ++ p.2
+
+/-- the per-height keys are the model's `rhbDataKey`, `rhbHeaderKey` -/
+theorem gen_nodeMetaFormats : Gen.C14.nodeMetaFormats = [("rhb/", "/d"), ("rhb/", "/h")] := by decide
+theorem fmtKey_rhb (h : Nat) : fmtKey ("rhb/", "/d") h = rhbDataKey h ∧ fmtKey ("rhb/", "/h") h = rhbHeaderKey h :=
+  ⟨rfl, rfl⟩
+
+/-- exactly one call site passes a key that is not built from constants: the RPC server's `GetMetadata`
+hands the key of the request to the store (outside the property's quantifier "the metadata keys the node
+uses"; read-only; see `unclean_metadata_key_collides` and props/C14.json) -/
+theorem gen_nodeMetaExternal : Gen.C14.nodeMetaExternal = ["pkg/rpc/server/server.go:GetMetadata"] := by decide
+
+/-- **cleanliness on the regenerated lists**: every constant key and every per-height key, for EVERY
+height, is a key `path.Clean` leaves alone — so all theorems of this file apply to them -/
+theorem gen_node_keys_clean :
+    (∀ k ∈ Gen.C14.nodeMetaConst, metaKeyOK k = true) ∧
+    (∀ p ∈ Gen.C14.nodeMetaFormats, ∀ h : Nat, metaKeyOK (fmtKey p h) = true) := by
+  refine ⟨by decide, ?_⟩
+  rw [gen_nodeMetaFormats]
+  intro p hp h
+  simp only [List.mem_cons, List.mem_nil_iff, or_false] at hp
+  rcases hp with rfl | rfl
+  · rw [(fmtKey_rhb h).1]; exact rhbDataKey_ok h
+  · rw [(fmtKey_rhb h).2]; exact rhbHeaderKey_ok h
+
+/-- the instances used by the stream (constants, heights 3 and 4) are those lists instantiated -/
 theorem gen_nodeMetaKeys : Gen.C14.nodeMetaKeys =
-    [daIncludedHeightKey, lastBatchDataKey, lastSubmittedHeaderHeightKey, lastSubmittedDataHeightKey,
-     rhbHeaderKey 3, rhbDataKey 3, rhbHeaderKey 4, rhbDataKey 4] := by decide
+    Gen.C14.nodeMetaConst ++ [3, 4].flatMap (fun h => Gen.C14.nodeMetaFormats.map (fmtKey · h)) := by decide
 theorem gen_nodeMetaKeys_ok : Gen.C14.nodeMetaKeys.all metaKeyOK = true := by decide
-/-- one `SaveBlockData` is one atomic write of four puts; lowering the height writes nothing -/
+/-- one `SaveBlockData` is one atomic write of four puts; lowering the height writes nothing; saving a
+height again under the same header is again four puts, under another header four puts and ONE delete —
+of the index key of the replaced header's hash — in the same single atomic write (measured on the harness's
+logging datastore, whose `Batch` records what the store put into it) -/
 theorem gen_save_one_batch :
     Gen.C14.saveAtomicWrites.all (· == 1) = true ∧ Gen.C14.savePuts.all (· == 4) = true ∧
-    Gen.C14.lowerHeightWrites = 0 := by decide
+    Gen.C14.lowerHeightWrites = 0 ∧ Gen.C14.resaveSame = (1, 4, 0) ∧ Gen.C14.resaveOther = (1, 4, 1) ∧
+    indexKey Gen.C14.resaveDeleted.1 = Gen.C14.resaveDeleted.2 := by decide +kernel
 
 /-! ## records of different kinds never overwrite one another -/
 
@@ -63,36 +121,45 @@ theorem node_metadata_keys_clean :
     ∀ h : Nat, metaKeyOK (rhbHeaderKey h) = true ∧ metaKeyOK (rhbDataKey h) = true :=
   ⟨by decide, by decide, by decide, by decide, fun h => ⟨rhbHeaderKey_ok h, rhbDataKey_ok h⟩⟩
 
-/-- each operation changes only its own records -/
-theorem save_touches_only_its_records {kv : KV} (hi : Inv kv) {h : Nat} (hh : h < 2 ^ 64) (x : Bytes) (b : Block) :
+/-- each operation changes only its own records (a block save: the block of its height, the index entry
+of its hash, and the index entries of OTHER hashes that led to its height — those are removed) -/
+theorem save_touches_only_its_records {H : Bytes → Option Bytes} {kv : KV} (hi : Inv H kv) {h : Nat}
+    (hh : h < 2 ^ 64) (x : Bytes) (b : Block) (hx : H b.header = some x) :
     let a := abs kv
-    let a' := abs (step kv (.save h x b))
+    let a' := abs (step H kv (.save h x b))
     a'.height = a.height ∧ a'.state = a.state ∧ a'.metadata = a.metadata ∧
-    (∀ h', h' ≠ h → a'.blocks h' = a.blocks h') ∧ (∀ x', x' ≠ x → a'.index x' = a.index x') := by
+    (∀ h', h' ≠ h → a'.blocks h' = a.blocks h') ∧
+    (∀ x', x' ≠ x → a.index x' ≠ some h → a'.index x' = a.index x') ∧
+    (∀ x', x' ≠ x → a.index x' = some h → a'.index x' = none) := by
   intro a a'
-  have : a' = a.step (.save h x b) := abs_step hi (op := .save h x b) hh
+  have : a' = a.step (.save h x b) := abs_step hi (op := .save h x b) ⟨hh, hx⟩
   rw [this]
-  refine ⟨rfl, rfl, rfl, ?_, ?_⟩ <;> intro y hy <;> simp [Abs.step, hy]
+  refine ⟨rfl, rfl, rfl, ?_, ?_, ?_⟩
+  · intro y hy; simp [Abs.step, hy]
+  · intro y hy hn; simp [Abs.step, hy, hn]
+  · intro y hy hn; simp [Abs.step, hy, hn]
 
-theorem setHeight_touches_only_height {kv : KV} (hi : Inv kv) {h : Nat} (hh : h < 2 ^ 64) :
+theorem setHeight_touches_only_height {H : Bytes → Option Bytes} {kv : KV} (hi : Inv H kv) {h : Nat}
+    (hh : h < 2 ^ 64) :
     let a := abs kv
-    let a' := abs (step kv (.setHeight h))
+    let a' := abs (step H kv (.setHeight h))
     a'.blocks = a.blocks ∧ a'.index = a.index ∧ a'.state = a.state ∧ a'.metadata = a.metadata := by
   intro a a'
   have : a' = a.step (.setHeight h) := abs_step hi (op := .setHeight h) hh
   rw [this]; exact ⟨rfl, rfl, rfl, rfl⟩
 
-theorem updateState_touches_only_state {kv : KV} (hi : Inv kv) (blob : Bytes) :
+theorem updateState_touches_only_state {H : Bytes → Option Bytes} {kv : KV} (hi : Inv H kv) (blob : Bytes) :
     let a := abs kv
-    let a' := abs (step kv (.updateState blob))
+    let a' := abs (step H kv (.updateState blob))
     a'.height = a.height ∧ a'.blocks = a.blocks ∧ a'.index = a.index ∧ a'.metadata = a.metadata := by
   intro a a'
   have : a' = a.step (.updateState blob) := abs_step hi (op := .updateState blob) trivial
   rw [this]; exact ⟨rfl, rfl, rfl, rfl⟩
 
-theorem setMetadata_touches_only_its_key {kv : KV} (hi : Inv kv) {k : String} (hk : metaKeyOK k = true) (v : Bytes) :
+theorem setMetadata_touches_only_its_key {H : Bytes → Option Bytes} {kv : KV} (hi : Inv H kv) {k : String}
+    (hk : metaKeyOK k = true) (v : Bytes) :
     let a := abs kv
-    let a' := abs (step kv (.setMetadata k v))
+    let a' := abs (step H kv (.setMetadata k v))
     a'.height = a.height ∧ a'.blocks = a.blocks ∧ a'.index = a.index ∧ a'.state = a.state ∧
     (∀ k', k' ≠ k → a'.metadata k' = a.metadata k') := by
   intro a a'
@@ -101,22 +168,27 @@ theorem setMetadata_touches_only_its_key {kv : KV} (hi : Inv kv) {k : String} (h
   refine ⟨rfl, rfl, rfl, rfl, ?_⟩
   intro y hy; simp [Abs.step, hy]
 
-/-! ## refinement: for every history the store is the height-indexed map -/
+/-! ## refinement: for every history the store is the height-indexed map
+
+`H` is the hash of a stored header record (`storedHeaderHash keyOk` in the typed operations);
+`Op.OK H` asks of a save only that the height is a `uint64` and that the block is saved under the hash
+of the header that is stored — for `SaveBlockData(header, …)` that is the wire round trip of C12
+(`typed_save_ok`). -/
 
 /-- every operation commutes with the abstraction map and keeps the invariant -/
-theorem step_refines {kv : KV} (hi : Inv kv) {op : Op} (hop : op.OK) :
-    Inv (step kv op) ∧ abs (step kv op) = (abs kv).step op :=
+theorem step_refines {H : Bytes → Option Bytes} {kv : KV} (hi : Inv H kv) {op : Op} (hop : op.OK H) :
+    Inv H (step H kv op) ∧ abs (step H kv op) = (abs kv).step op :=
   ⟨inv_step hi hop, abs_step hi hop⟩
 
 /-- **refinement**, for every operation sequence from the empty store -/
-theorem refinement (ops : List Op) (hops : ∀ op ∈ ops, op.OK) :
-    Inv (run KV.empty ops) ∧ abs (run KV.empty ops) = Abs.init.run ops := by
-  have := refinement_from inv_empty ops hops
+theorem refinement (H : Bytes → Option Bytes) (ops : List Op) (hops : ∀ op ∈ ops, op.OK H) :
+    Inv H (run H KV.empty ops) ∧ abs (run H KV.empty ops) = Abs.init.run ops := by
+  have := refinement_from (inv_empty H) ops hops
   rwa [abs_empty] at this
 
 /-- **every read returns what the abstract map returns**, after every operation sequence -/
-theorem reads_refine (ops : List Op) (hops : ∀ op ∈ ops, op.OK) :
-    let kv := run KV.empty ops
+theorem reads_refine (H : Bytes → Option Bytes) (ops : List Op) (hops : ∀ op ∈ ops, op.OK H) :
+    let kv := run H KV.empty ops
     let a := Abs.init.run ops
     height kv = .ok a.height ∧
     (∀ h, getBlockBlobs kv h = a.getBlock h) ∧
@@ -129,7 +201,7 @@ theorem reads_refine (ops : List Op) (hops : ∀ op ∈ ops, op.OK) :
     (∀ keyOk h, getBlockData keyOk kv h = a.getBlockData keyOk h) ∧
     (∀ keyOk x, getBlockByHash keyOk kv x = a.getBlockDataByHash keyOk x) := by
   intro kv a
-  obtain ⟨hi, ha⟩ := refinement ops hops
+  obtain ⟨hi, ha⟩ := refinement H ops hops
   have ha' : abs kv = a := ha
   refine ⟨?_, ?_, ?_, ?_, ?_, ?_, ?_, ?_, ?_, ?_⟩
   · rw [← ha']; exact read_height hi
@@ -143,43 +215,59 @@ theorem reads_refine (ops : List Op) (hops : ∀ op ∈ ops, op.OK) :
   · intro keyOk h; rw [← ha']; exact read_blockData hi keyOk h
   · intro keyOk x; rw [← ha']; exact read_blockDataByHash hi keyOk x
 
-/-- the abstract map returns exactly what the latest write stored -/
+/-- the abstract map returns exactly what the latest write stored; a hash whose height is saved again
+under another hash leads nowhere -/
 theorem abs_reads_latest (a : Abs) (h : Nat) (x : Bytes) (b : Block) (s : Bytes) (k : String) (v : Bytes) :
     (a.step (.save h x b)).getBlock h = .ok (b.header, b.data) ∧
     (a.step (.save h x b)).getSignature h = .ok b.signature ∧
     (a.step (.save h x b)).getBlockByHash x = .ok (b.header, b.data) ∧
     (a.step (.save h x b)).getSignatureByHash x = .ok b.signature ∧
+    (∀ y, y ≠ x → a.index y = some h → (a.step (.save h x b)).getBlockByHash y = .error .notFound) ∧
     (a.step (.updateState s)).getState = .ok s ∧
     (a.step (.setMetadata k v)).getMetadata k = .ok v := by
-  simp [Abs.step, Abs.getBlock, Abs.getSignature, Abs.getBlockByHash, Abs.getSignatureByHash, Abs.getState,
-    Abs.getMetadata]
+  refine ⟨?_, ?_, ?_, ?_, ?_, ?_, ?_⟩ <;>
+    try simp [Abs.step, Abs.getBlock, Abs.getSignature, Abs.getBlockByHash, Abs.getSignatureByHash, Abs.getState,
+      Abs.getMetadata]
+  intro y hy hi
+  simp [hy, hi]
+
+/-- the typed `SaveBlockData(sh, d, sig)` is an `Op.OK` save whenever the header survives the wire round
+trip with its hash (C12 `signed_header_payload_preserved`: every well-formed header whose key parses) -/
+theorem typed_save_ok (keyOk : Bytes → Bool) (sh : Wire.SignedHeader) (d : Wire.Data) (sig : Bytes)
+    (hh : sh.header.height < 2 ^ 64)
+    (hrt : ∃ sh', Wire.SignedHeader.decode keyOk sh.encode = some sh' ∧ sh'.header.hash = sh.header.hash) :
+    (Op.save sh.header.height sh.header.hash ⟨sh.encode, d.encode, sig⟩).OK (storedHeaderHash keyOk) := by
+  obtain ⟨sh', h1, h2⟩ := hrt
+  exact ⟨hh, by simp [storedHeaderHash, h1, h2]⟩
 
 /-- **a saved block is retrievable by height and by header hash together with its signature**
 (typed form; the round trip of the wire codec for the saved values is C12's theorem and is a
 hypothesis here) -/
-theorem saved_block_retrievable {kv : KV} (hi : Inv kv) (keyOk : Bytes → Bool)
+theorem saved_block_retrievable {keyOk : Bytes → Bool} {kv : KV} (hi : Inv (storedHeaderHash keyOk) kv)
     (sh : Wire.SignedHeader) (d : Wire.Data) (sig : Bytes) (hh : sh.header.height < 2 ^ 64)
     (hrt1 : Wire.SignedHeader.decode keyOk sh.encode = some sh) (hrt2 : Wire.Data.decode d.encode = some d) :
-    let kv' := applyAll kv (saveBlockData sh d sig)
+    let kv' := applyAll kv (saveBlockData keyOk kv sh d sig)
     getBlockData keyOk kv' sh.header.height = .ok (sh, d) ∧
     getBlockByHash keyOk kv' sh.header.hash = .ok (sh, d) ∧
     getSignature kv' sh.header.height = .ok sig ∧
     getSignatureByHash kv' sh.header.hash = .ok sig := by
   intro kv'
-  have e : kv' = step kv (.save sh.header.height sh.header.hash ⟨sh.encode, d.encode, sig⟩) := rfl
-  have hi' : Inv kv' := e ▸ inv_step hi (op := .save _ _ _) hh
+  have hok := typed_save_ok keyOk sh d sig hh ⟨sh, hrt1, rfl⟩
+  have e : kv' = step (storedHeaderHash keyOk) kv (.save sh.header.height sh.header.hash ⟨sh.encode, d.encode, sig⟩) := rfl
+  have hi' : Inv (storedHeaderHash keyOk) kv' := e ▸ inv_step hi hok
   have ha : abs kv' = (abs kv).step (.save sh.header.height sh.header.hash ⟨sh.encode, d.encode, sig⟩) :=
-    e ▸ abs_step hi (op := .save _ _ _) hh
+    e ▸ abs_step hi hok
   rw [read_blockData hi', read_blockDataByHash hi', read_signature hi', read_signatureByHash hi', ha]
   simp [Abs.step, Abs.getBlockData, Abs.getBlockDataByHash, Abs.getSignature, Abs.getSignatureByHash,
     decodeBlock, hrt1, hrt2]
 
 /-! ## the recorded height only grows -/
 
-theorem height_only_grows (ops more : List Op) (h1 : ∀ op ∈ ops, op.OK) (h2 : ∀ op ∈ more, op.OK) :
-    (abs (run KV.empty ops)).height ≤ (abs (run KV.empty (ops ++ more))).height := by
-  have hi := (refinement ops h1).1
-  have : run KV.empty (ops ++ more) = run (run KV.empty ops) more := by simp [run, List.foldl_append]
+theorem height_only_grows (H : Bytes → Option Bytes) (ops more : List Op) (h1 : ∀ op ∈ ops, op.OK H)
+    (h2 : ∀ op ∈ more, op.OK H) :
+    (abs (run H KV.empty ops)).height ≤ (abs (run H KV.empty (ops ++ more))).height := by
+  have hi := (refinement H ops h1).1
+  have : run H KV.empty (ops ++ more) = run H (run H KV.empty ops) more := by simp [run, List.foldl_append]
   rw [this]
   exact height_mono_run hi more h2
 
@@ -187,94 +275,337 @@ theorem height_only_grows (ops more : List Op) (h1 : ∀ op ∈ ops, op.OK) (h2 
 theorem setHeight_is_max (a : Abs) (h : Nat) : (a.step (.setHeight h)).height = max a.height h := by
   simp only [Abs.step]; split <;> omega
 
-/-! ## a block save is all-or-nothing under a crash; a crash leaves a prefix of the history -/
+/-! ## a block save is all-or-nothing under a crash; a crash leaves a prefix of the history
 
-/-- a block save is ONE atomic write-set … -/
-theorem save_is_one_write_set (kv : KV) (h : Nat) (x : Bytes) (b : Block) :
-    writes kv (.save h x b) = [saveBlobsWS h x b] := rfl
+What is PROVED here is about the model: the model issues one write-set per block save (that is how
+`Store.saveBlobsWS` is written — the first theorem is definitional), and a crash keeps a prefix of the
+write-sets.  That the CODE issues one `Batch` with exactly these writes is the regenerated fact
+`gen_save_one_batch` + the correspondence run; that one `Batch.Commit` of the datastore is atomic is an
+ASSUMPTION about badger (see props/C14.json). -/
+
+/-- a block save is ONE write-set of the model (definitional), of four puts and at most one delete … -/
+theorem save_is_one_write_set (H : Bytes → Option Bytes) (kv : KV) (h : Nat) (x : Bytes) (b : Block) :
+    writes H kv (.save h x b) = [saveBlobsWS H kv h x b] ∧
+    (saveBlobsWS H kv h x b = savePutsWS h x b ∨
+     ∃ oh, oh ≠ x ∧ saveBlobsWS H kv h x b = .del (indexKey oh) :: savePutsWS h x b) := by
+  refine ⟨rfl, ?_⟩
+  unfold saveBlobsWS staleIndexWS
+  cases hs : staleHash H kv h x with
+  | none => left; rfl
+  | some oh =>
+    right
+    refine ⟨oh, ?_, rfl⟩
+    unfold staleHash at hs
+    cases hg : kv.get (headerKey h) with
+    | none => simp [hg] at hs
+    | some ob =>
+      cases hh : H ob with
+      | none => simp [hg, hh] at hs
+      | some oh' =>
+        simp only [hg, hh] at hs
+        split at hs
+        · next hc => cases hs; exact hc.1
+        · cases hs
+
+/-- saving the same header again (the block manager's early save and final save of one height: the
+header hash does not cover the signature) issues exactly the four puts, as before the repair -/
+theorem resave_same_hash_four_puts {H : Bytes → Option Bytes} {kv : KV} {h : Nat} {x : Bytes} {ob : Bytes}
+    (hg : kv.get (headerKey h) = some ob) (hh : H ob = some x) (b : Block) :
+    saveBlobsWS H kv h x b = savePutsWS h x b := by
+  simp [saveBlobsWS, staleIndexWS, staleHash, hg, hh]
 
 /-- … hence under every crash prefix the store is the old one or the one with the whole block -/
-theorem save_all_or_nothing (n : Nat) (kv : KV) (h : Nat) (x : Bytes) (b : Block) :
-    applyPrefix n (writes kv (.save h x b)) kv = kv ∨
-    applyPrefix n (writes kv (.save h x b)) kv = step kv (.save h x b) :=
-  crash_in_op n kv _
+theorem save_all_or_nothing (H : Bytes → Option Bytes) (n : Nat) (kv : KV) (h : Nat) (x : Bytes) (b : Block) :
+    applyPrefix n (writes H kv (.save h x b)) kv = kv ∨
+    applyPrefix n (writes H kv (.save h x b)) kv = step H kv (.save h x b) :=
+  crash_in_op H n kv _
 
 /-- typed form, on the exact write-sets the driver issues -/
-theorem saveBlockData_all_or_nothing (n : Nat) (kv : KV) (sh : Wire.SignedHeader) (d : Wire.Data) (sig : Bytes) :
-    applyPrefix n (saveBlockData sh d sig) kv = kv ∨
-    applyPrefix n (saveBlockData sh d sig) kv = applyAll kv (saveBlockData sh d sig) :=
+theorem saveBlockData_all_or_nothing (keyOk : Bytes → Bool) (n : Nat) (kv : KV) (sh : Wire.SignedHeader)
+    (d : Wire.Data) (sig : Bytes) :
+    applyPrefix n (saveBlockData keyOk kv sh d sig) kv = kv ∨
+    applyPrefix n (saveBlockData keyOk kv sh d sig) kv = applyAll kv (saveBlockData keyOk kv sh d sig) :=
   applyPrefix_single n _ kv
 
 /-- a crash at any write boundary of any history leaves the store that a prefix of the history
 produced (so every invariant and every read theorem above holds after a crash) -/
-theorem crash_leaves_a_prefix (ops : List Op) (n : Nat) :
-    ∃ m, m ≤ ops.length ∧ applyPrefix n (log KV.empty ops) KV.empty = run KV.empty (ops.take m) :=
-  crash_is_prefix ops KV.empty n
+theorem crash_leaves_a_prefix (H : Bytes → Option Bytes) (ops : List Op) (n : Nat) :
+    ∃ m, m ≤ ops.length ∧ applyPrefix n (log H KV.empty ops) KV.empty = run H KV.empty (ops.take m) :=
+  crash_is_prefix H ops KV.empty n
 
-/-- everything survives closing and reopening: the store object holds no state -/
+/-- closing and reopening: the store object holds no state, so in the MODEL reopening is the identity
+(definitional).  That the datastore returns after `Close`/`New` what was committed is an assumption about
+badger, exercised (not proved) by the thorough tier's close/reopen scenarios. -/
 theorem reopen_id (kv : KV) : reopen kv = kv := rfl
 
-/-! ## reading by hash -/
+/-! ## reading by hash: exactly the block last written under that hash — for every history -/
 
-/-- the stronger reading: whatever is read under hash `x` was last saved under hash `x` -/
-def byHash_full : Prop :=
-  ∀ (ops : List Op), (∀ op ∈ ops, op.OK) → ∀ x hb db,
-    getBlockBlobsByHash (run KV.empty ops) x = .ok (hb, db) →
-    ∃ h b, lastSaved ops h = some (x, b) ∧ hb = b.header ∧ db = b.data
-
-def witnessOps : List Op := [.save 1 [0xAA] ⟨[1], [2], [3]⟩, .save 1 [0xBB] ⟨[4], [5], [6]⟩]
-
-/-- overwriting a height with a header of another hash leaves the old hash in the index: the read by
-the old hash returns the new block (the modelling decision of DESIGN.md C14) -/
-theorem old_hash_reads_new_block :
-    getBlockBlobsByHash (run KV.empty witnessOps) [0xAA] = .ok ([4], [5]) := by decide
-
-theorem byHash_full_fails : ¬ byHash_full := by
-  intro hf
-  have hok : ∀ op ∈ witnessOps, op.OK := by
-    intro op hop
-    simp only [witnessOps, List.mem_cons, List.mem_nil_iff, or_false] at hop
-    rcases hop with rfl | rfl <;> (show (1 : Nat) < 2 ^ 64; decide)
-  obtain ⟨h, b, hs, hb, _⟩ := hf witnessOps hok [0xAA] [4] [5] old_hash_reads_new_block
-  by_cases h1 : h = 1 <;> simp [lastSaved, witnessOps, savedStep, h1] at hs
-
-/-- … and it holds whenever no height is saved again under a header of another hash (which C01/C04
-establish for the node's own use of the store) -/
-theorem byHash_partial (ops : List Op) (hops : ∀ op ∈ ops, op.OK) (hn : NoResave (fun _ => none) ops)
-    (x hb db : Bytes) (hr : getBlockBlobsByHash (run KV.empty ops) x = .ok (hb, db)) :
-    ∃ h b, lastSaved ops h = some (x, b) ∧ hb = b.header ∧ db = b.data := by
-  rw [(reads_refine ops hops).2.2.2.2.1 x] at hr
-  simp only [Abs.getBlockByHash] at hr
-  cases hx : (Abs.init.run ops).index x with
-  | none => simp [hx] at hr
+/-- what the property says, in terms of the history alone: the block of the LAST save under hash `x`,
+and nothing once the height of that save was saved again under another hash -/
+def byHashSpec (ops : List Op) (x : Bytes) : Option Block :=
+  match lastUnder ops x with
+  | none => none
   | some h =>
-    obtain ⟨b, hg, hb'⟩ := index_sound_run ops Abs.init (fun _ => none) (by simp [Abs.init]) hn x h hx
-    refine ⟨h, b, hg, ?_⟩
-    simp [hx, Abs.getBlock, hb'] at hr
-    exact ⟨hr.1.symm, hr.2.symm⟩
+    match lastSaved ops h with
+    | some (y, b) => if y = x then some b else none
+    | none => none
 
-example : NoResave (fun _ => none) [.save 1 [0xAA] ⟨[1], [2], [3]⟩, .save 2 [0xBB] ⟨[4], [5], [6]⟩,
-    .save 1 [0xAA] ⟨[1], [2], [7]⟩] := by
-  simp [NoResave, savedStep]
+theorem abs_byHash (ops : List Op) (x : Bytes) :
+    ((Abs.init.run ops).index x).bind (Abs.init.run ops).blocks = byHashSpec ops x := by
+  have hg := ghost_run ops
+  rw [hg.index x]
+  simp only [byHashOf, byHashSpec]
+  cases hu : lastUnder ops x with
+  | none => rfl
+  | some h =>
+    simp only [Option.bind_some]
+    cases hs : lastSaved ops h with
+    | none => simp
+    | some p =>
+      obtain ⟨y, b⟩ := p
+      by_cases e : y = x
+      · simp [e, hg.blocks h, hs]
+      · simp [e]
+
+/-- **reads by hash, full strength** (the clause that was false before /repo 34bccfd): after EVERY
+operation sequence — heights overwritten under other headers included — `GetBlockByHash(x)` and
+`GetSignatureByHash(x)` return exactly the block last written under `x`, and not-found once that height
+holds another block -/
+theorem byHash_full (H : Bytes → Option Bytes) (ops : List Op) (hops : ∀ op ∈ ops, op.OK H) (x : Bytes) :
+    getBlockBlobsByHash (run H KV.empty ops) x =
+      (match byHashSpec ops x with
+       | some b => .ok (b.header, b.data)
+       | none => .error .notFound) ∧
+    getSignatureByHash (run H KV.empty ops) x =
+      (match byHashSpec ops x with
+       | some b => .ok b.signature
+       | none => .error .notFound) := by
+  have hr := reads_refine H ops hops
+  rw [hr.2.2.2.2.1 x, hr.2.2.2.2.2.1 x, ← abs_byHash ops x]
+  simp only [Abs.getBlockByHash, Abs.getSignatureByHash, Abs.getBlock, Abs.getSignature]
+  cases (Abs.init.run ops).index x with
+  | none => exact ⟨rfl, rfl⟩
+  | some h =>
+    simp only [Option.bind_some]
+    cases (Abs.init.run ops).blocks h <;> exact ⟨rfl, rfl⟩
+
+/-- in particular: whatever is read under hash `x` was saved under hash `x` and is the current block of
+its height (the statement that needed `NoResave` before the repair) -/
+theorem byHash_sound (H : Bytes → Option Bytes) (ops : List Op) (hops : ∀ op ∈ ops, op.OK H)
+    (x hb db : Bytes) (hr : getBlockBlobsByHash (run H KV.empty ops) x = .ok (hb, db)) :
+    ∃ h b, lastSaved ops h = some (x, b) ∧ hb = b.header ∧ db = b.data := by
+  rw [(byHash_full H ops hops x).1] at hr
+  unfold byHashSpec at hr
+  cases hu : lastUnder ops x with
+  | none => simp [hu] at hr
+  | some h =>
+    cases hs : lastSaved ops h with
+    | none => simp [hu, hs] at hr
+    | some p =>
+      obtain ⟨y, b⟩ := p
+      by_cases e : y = x
+      · subst e
+        simp [hu, hs] at hr
+        exact ⟨h, b, hs, hr.1.symm, hr.2.symm⟩
+      · simp [hu, hs, e] at hr
+
+/-! ### the repaired defect, kernel-checked on real header hashes
+
+Height 1 is saved with header A, then with header B (another time stamp, hence another hash). -/
+
+def wOk : Bytes → Bool := fun _ => true
+def shA : Wire.SignedHeader := { header := { height := 1, time := 1 } }
+def shB : Wire.SignedHeader := { header := { height := 1, time := 2 } }
+
+/-- the two saves through the model of the current code -/
+def twoSaves : KV :=
+  let kv1 := applyAll KV.empty (saveBlockData wOk KV.empty shA {} [7])
+  applyAll kv1 (saveBlockData wOk kv1 shB {} [8])
+
+/-- the two saves as `SaveBlockData` wrote them before /repo 34bccfd (four puts, no delete) -/
+def twoSavesOld : KV :=
+  applyAll KV.empty [saveBlobsWSOld 1 shA.header.hash ⟨shA.encode, ({} : Wire.Data).encode, [7]⟩,
+    saveBlobsWSOld 1 shB.header.hash ⟨shB.encode, ({} : Wire.Data).encode, [8]⟩]
+
+/-- **old witness** (the finding `C14/read/by-hash-returns-other-block-after-height-overwrite`): before
+the repair the read by A's hash returned B's block and B's signature -/
+theorem old_store_reads_other_block_by_old_hash :
+    getBlockByHash wOk twoSavesOld shA.header.hash = .ok (shB, {}) ∧
+    getSignatureByHash twoSavesOld shA.header.hash = .ok [8] := by decide +kernel
+
+/-- the same history now: A's hash leads nowhere, B is found under B's hash -/
+theorem repaired_store_reads_by_hash :
+    getBlockByHash wOk twoSaves shA.header.hash = .error .notFound ∧
+    getSignatureByHash twoSaves shA.header.hash = .error .notFound ∧
+    getBlockByHash wOk twoSaves shB.header.hash = .ok (shB, {}) ∧
+    getSignatureByHash twoSaves shB.header.hash = .ok [8] := by decide +kernel
+
+/-- and the abstract map of the old code (`Abs.stepOld`) differs from the property's map on that history -/
+theorem old_abs_keeps_stale_hash :
+    ((Abs.init.stepOld (.save 1 [0xAA] ⟨[1], [2], [3]⟩)).stepOld (.save 1 [0xBB] ⟨[4], [5], [6]⟩)).index [0xAA] = some 1 ∧
+    ((Abs.init.step (.save 1 [0xAA] ⟨[1], [2], [3]⟩)).step (.save 1 [0xBB] ⟨[4], [5], [6]⟩)).index [0xAA] = none := by
+  decide
+
+/-! ## `pkg/store` refines `Chain.Store`, the abstract store of C01–C08 (Proofs/C14Chain.lean)
+
+`Sim r kv s`: the key-value image `kv` (real key layout) holds exactly what the abstract store `s`
+holds — height, every block (`/h/<h>`, `/d/<h>`, `/c/<h>` ↦ one `Chain.Block` incl. `savedSig`), state,
+every metadata key `path.Clean` leaves alone — where `r : Rep` says how the symbolic signatures and key ids
+of `Chain` are written as bytes.  Each atomic write `SW` of `Chain.Store` is the real method
+(`SaveBlockData`, `SetHeight`, `UpdateState`, `SetMetadata`), which issues at most ONE write-set. -/
+
+open Store.Sim in
+/-- **one atomic write ↦ one real method call**: at most one write-set, and the relation is kept -/
+theorem chain_store_write {r : Rep} {kv : KV} {s : Chain.Store} (hs : Sim r kv s) {w : Chain.SW} (hw : SWOK r w) :
+    (impl r kv w).length ≤ 1 ∧ Sim r (applyAll kv (impl r kv w)) (s.apply w) :=
+  ⟨impl_length r kv w, sim_step hs hw⟩
+
+open Store.Sim in
+/-- a `SetHeight` writes nothing exactly when the abstract `setHeightW` issues no write; every other write
+is exactly one write-set -/
+theorem chain_store_write_count {r : Rep} {kv : KV} {s : Chain.Store} (hs : Sim r kv s) :
+    (∀ h, (impl r kv (.setHeight h)).length = (Chain.setHeightW s h).length) ∧
+    (∀ w, (∀ h, w ≠ .setHeight h) → (impl r kv w).length = 1) :=
+  ⟨impl_setHeight_length hs, fun w hw => impl_length_one r kv w hw⟩
+
+open Store.Sim in
+/-- **every log of atomic writes from the empty database** (the logs of `Producer.run`, `Sync.runOps`, the
+submitter, the includer): the image is the abstract store -/
+theorem chain_store_log (r : Rep) (ws : List Chain.SW) (hw : ∀ w ∈ ws, SWOK r w) :
+    Sim r (applyAll KV.empty (implLog r KV.empty ws)) (({} : Chain.Store).applyAll ws) :=
+  sim_applyAll ws (sim_empty r) hw
+
+open Store.Sim in
+/-- **crashes commute**: a crash at any write-set boundary of the real log is a crash at an `SW` boundary
+of the abstract log (`Chain.Store.applyPrefix`: the crash model of C04, C05, C11, FNODE) -/
+theorem chain_store_crash (r : Rep) (ws : List Chain.SW) (hw : ∀ w ∈ ws, SWOK r w) (n : Nat) :
+    ∃ m, m ≤ ws.length ∧
+      Sim r (applyPrefix n (implLog r KV.empty ws) KV.empty) (({} : Chain.Store).applyPrefix m ws) :=
+  sim_prefix ws (sim_empty r) hw n
+
+open Store.Sim in
+/-- **reads commute**: `Height`, `GetBlockData`, `GetSignature`, `GetState`, `GetMetadata` on the image
+return what `height`, `getBlock` (header, data, `savedSig`), `state`, `getMeta` return on the abstract store
+(typed block/state reads: the decoding of the bytes they were saved as — C12's round trip gives the value
+back, `Store.Sim.read_block_typed`, `read_state_typed`) -/
+theorem chain_store_reads {r : Rep} {kv : KV} {s : Chain.Store} (hs : Sim r kv s) :
+    height kv = .ok s.height ∧
+    (∀ h, getBlockData r.keyOk kv h =
+      match s.getBlock h with
+      | some b => decodeBlock r.keyOk (r.header b.sh).encode b.data.encode
+      | none => .error .notFound) ∧
+    (∀ h, getSignature kv h =
+      match s.getBlock h with
+      | some b => .ok (r.sigBytes b.savedSig)
+      | none => .error .notFound) ∧
+    (getState kv =
+      match s.state with
+      | some st =>
+        (match State.decode (stateOf st).encode with
+         | some x => .ok x
+         | none => .error .corrupt)
+      | none => .error .notFound) ∧
+    (∀ k, metaKeyOK k = true → getMetadata kv k =
+      match s.getMeta k with
+      | some v => .ok v
+      | none => .error .notFound) :=
+  ⟨Store.Sim.read_height hs, Store.Sim.read_block hs, Store.Sim.read_signature hs, Store.Sim.read_state hs,
+    fun _ hk => Store.Sim.read_meta hs hk⟩
+
+open Store.Sim in
+/-- the relation is the graph of an abstraction FUNCTION (up to what can be read from `Chain.Store`) when
+the encoding loses nothing -/
+theorem chain_store_abstraction_unique {r : Rep} {kv : KV} {s s' : Chain.Store} (h : Sim r kv s) (h' : Sim r kv s')
+    (injB : ∀ a b : Chain.Block, r.block a = r.block b → a = b)
+    (injS : ∀ a b : Chain.State, (stateOf a).encode = (stateOf b).encode → a = b) :
+    s.height = s'.height ∧ (∀ k, s.getBlock k = s'.getBlock k) ∧ s.state = s'.state ∧
+    (∀ k, metaKeyOK k = true → s.getMeta k = s'.getMeta k) :=
+  sim_functional h h' injB injS
+
+open Store.Sim in
+/-- the writes of the producer, the syncer, the submitter's watermarks and the DA includer have the shape
+the correspondence needs (blocks saved at their header's height, clean metadata keys) -/
+theorem block_manager_writes_have_store_shape :
+    (∀ c n resp ex, ∀ w ∈ (Producer.publish c n resp ex).2.1, Shape w) ∧
+    (∀ c disk da n ws, Producer.start c disk da = .ok (n, ws) → ∀ w ∈ ws, Shape w) ∧
+    (∀ n sh d ex, ∀ w ∈ (Sync.applyBlock n sh d ex).2.1, Shape w) ∧
+    (∀ c disk caches n ws, Sync.start c disk caches = some (n, ws) → ∀ w ∈ ws, Shape w) ∧
+    (∀ a isData h, ∀ w ∈ (Submit.raiseWm a isData h).2, Shape w) ∧
+    (∀ a, ∀ w ∈ (Submit.includerIter a).2, Shape w) :=
+  ⟨shape_publish, fun c disk da _ _ h => shape_producer_start c disk da h, shape_sync_applyBlock,
+    fun c disk caches _ _ h => shape_sync_start c disk caches h, shape_raiseWm,
+    fun a => shape_includerPass _ a [] (by simp)⟩
+
+/-! ### non-vacuity of the simulation: a concrete representation and log -/
+
+def demoRep : Store.Sim.Rep where
+  sigBytes := fun
+    | .none => []
+    | .garbage b => b
+    | .by k p => sha256 (k.toUInt8 :: p)
+  keyBytes := fun k => [8, 1, 18, 1, k.toUInt8]
+  keyOk := fun _ => true
+
+def demoBlock : Chain.Block :=
+  { sh := { hdr := { height := 3, time := 5, chainId := "c" }, sig := .by 1 [9], signer := { addr := [1], key := some 1 } },
+    data := { txs := [[1, 2]] }, savedSig := .by 1 [9] }
+
+def demoLog : List Chain.SW :=
+  [.saveBlock 3 demoBlock, .updateState { chainId := "c", lastHeight := 3, lastTime := 5000000007 },
+   .setHeight 3, .setMeta "d" (Chain.le64 3), .setHeight 2]
+
+theorem demoLog_ok : ∀ w ∈ demoLog, Store.Sim.SWOK demoRep w := by
+  intro w hw
+  simp only [demoLog, List.mem_cons, List.mem_nil_iff, or_false] at hw
+  rcases hw with rfl | rfl | rfl | rfl | rfl
+  · exact ⟨rfl, by decide, by decide +kernel⟩
+  · trivial
+  · show (3 : Nat) < 2 ^ 64; decide
+  · show metaKeyOK "d" = true; decide
+  · show (2 : Nat) < 2 ^ 64; decide
+
+def demoImage : KV := applyAll KV.empty (Store.Sim.implLog demoRep KV.empty demoLog)
+
+example : Sim demoRep demoImage (({} : Chain.Store).applyAll demoLog) := chain_store_log demoRep demoLog demoLog_ok
+/- four write-sets for five atomic writes: the last `setHeight` does not raise the height -/
+example : (Store.Sim.implLog demoRep KV.empty demoLog).length = 4 := by decide +kernel
+example : height demoImage = .ok 3 ∧ getSignature demoImage 3 = .ok (demoRep.sigBytes (.by 1 [9])) ∧
+    getBlockData demoRep.keyOk demoImage 3 = .ok (demoRep.header demoBlock.sh, demoBlock.data) ∧
+    getState demoImage = .ok (Store.Sim.stateOf { chainId := "c", lastHeight := 3, lastTime := 5000000007 }) ∧
+    getMetadata demoImage "d" = .ok (Chain.le64 3) := by decide +kernel
 
 /-! ## non-vacuity: a concrete history through the model -/
 
-def demoOps : List Op :=
-  [.save 5 [0xAB] ⟨[1], [2], [3]⟩, .setHeight 5, .setHeight 3, .updateState [9], .setMetadata "d" [7],
-   .setMetadata "rhb/5/h" [8]]
+/-- a hash function for blob-level examples: the header record `[n]` has hash `[0xA0 + n]` -/
+def demoH : Bytes → Option Bytes
+  | [n] => some [0xA0 + n]
+  | _ => none
 
-theorem demoOps_ok : ∀ op ∈ demoOps, op.OK := by
+def demoOps : List Op :=
+  [.save 5 [0xA1] ⟨[1], [2], [3]⟩, .setHeight 5, .setHeight 3, .updateState [9], .setMetadata "d" [7],
+   .setMetadata "rhb/5/h" [8], .save 5 [0xA4] ⟨[4], [5], [6]⟩, .save 6 [0xA1] ⟨[1], [2], [3]⟩,
+   .save 6 [0xA1] ⟨[1], [2], [9]⟩]
+
+theorem demoOps_ok : ∀ op ∈ demoOps, op.OK demoH := by
   intro op hop
   simp only [demoOps, List.mem_cons, List.mem_nil_iff, or_false] at hop
-  rcases hop with rfl | rfl | rfl | rfl | rfl | rfl <;> simp only [Op.OK] <;> decide
-example : height (run KV.empty demoOps) = .ok 5 := by decide
-example : getBlockBlobs (run KV.empty demoOps) 5 = .ok ([1], [2]) := by decide
-example : getBlockBlobsByHash (run KV.empty demoOps) [0xAB] = .ok ([1], [2]) := by decide
-example : getSignature (run KV.empty demoOps) 5 = .ok [3] := by decide
-example : getBlockBlobs (run KV.empty demoOps) 6 = .error .notFound := by decide
-example : getMetadata (run KV.empty demoOps) "rhb/5/h" = .ok [8] := by decide
-example : (log KV.empty demoOps).length = 5 := by decide
-example : (run KV.empty demoOps).keys =
-    ["/m/rhb/5/h", "/m/d", "/s", "/t", "/i/AB", "/c/5", "/d/5", "/h/5"] := by decide
+  rcases hop with rfl | rfl | rfl | rfl | rfl | rfl | rfl | rfl | rfl <;> simp only [Op.OK] <;> decide
+example : height (run demoH KV.empty demoOps) = .ok 5 := by decide
+example : getBlockBlobs (run demoH KV.empty demoOps) 5 = .ok ([4], [5]) := by decide
+example : getBlockBlobsByHash (run demoH KV.empty demoOps) [0xA4] = .ok ([4], [5]) := by decide
+/- `[0xA1]` was last saved at height 6 (same hash twice: the second save's signature) -/
+example : getBlockBlobsByHash (run demoH KV.empty demoOps) [0xA1] = .ok ([1], [2]) := by decide
+example : getSignatureByHash (run demoH KV.empty demoOps) [0xA1] = .ok [9] := by decide
+example : byHashSpec demoOps [0xA1] = some ⟨[1], [2], [9]⟩ := by decide
+example : byHashSpec (demoOps.take 7) [0xA1] = none := by decide
+example : getBlockBlobsByHash (run demoH KV.empty (demoOps.take 7)) [0xA1] = .error .notFound := by decide
+example : getSignature (run demoH KV.empty demoOps) 5 = .ok [6] := by decide
+example : getBlockBlobs (run demoH KV.empty demoOps) 7 = .error .notFound := by decide
+example : getMetadata (run demoH KV.empty demoOps) "rhb/5/h" = .ok [8] := by decide
+example : (log demoH KV.empty demoOps).length = 8 := by decide
+/- the seventh operation's write-set carries the delete; the ninth (same hash again) does not -/
+example : (log demoH KV.empty demoOps)[5]? =
+    some [.del "/i/A1", .put "/h/5" [4], .put "/d/5" [5], .put "/c/5" [6], .put "/i/A4" (encodeHeight 5)] := by decide
+example : ((log demoH KV.empty demoOps)[7]?).map List.length = some 4 := by decide
 
 end Spec.C14
